@@ -101,7 +101,7 @@ def run_kani_group(pid, kcfg, tier, seed, clock, gi=0):
             fq = [u.fq(h["name"]) for u, h in sel] + [u.fq(c) for u, c in canaries]
             log("[%s] kani: %d harnesses + %d canaries, tier=%s, timeout/harness=%ds, jobs=%d" % (pid, len(sel), len(canaries), tier, timeout_s, jobs))
             rc, out, rdir, killed = K.run_kani(ws, fq, timeout_s, jobs, os.path.join(log_dir, "kani-g%d.log" % gi))
-            if re.search(r"^error: could not compile|^error: Failed to compile", out, re.M):
+            if re.search(r"^error: could not compile|^error: Failed to ", out, re.M):
                 undecided.append("build failed (harness does not compile against the current tree, or compiler crash); see work/logs/%s/" % pid)
             if "internal compiler error" in out or "Kani unexpectedly panicked" in out:
                 undecided.append("kani-compiler crashed; see work/logs/%s/" % pid)
